@@ -323,7 +323,10 @@ def rule_alloc_complete(ctx):
     f = ci.methods['alloc']
     calls = [c for c in U.calls(f.node) if U.is_self_attr(c.func) and c.func.attr == '_find_available']
     ctx.require(len(calls) == 1, 'C16.free', 'alloc: the call of _find_available vanished')
-    early = [norm(r)[:60] for r in walk_local(f.node) if isinstance(r, (ast.Return, ast.Raise)) and r.lineno < calls[0].lineno]
+    # (an exit that depends on the argument alone - refusing n < 1, a non-integer - says nothing about space and is not meant)
+    early = [norm(r)[:60] for r in walk_local(f.node) if isinstance(r, (ast.Return, ast.Raise)) and r.lineno < calls[0].lineno
+             and (not [p_ for p_ in U.parent_chain(r) if isinstance(p_, ast.If)] or
+                  any('self' in U.names_in(p_.test) for p_ in U.parent_chain(r) if isinstance(p_, ast.If)))]
     ctx.ob('C16.free', f'{f.fq}:search-before-refusal', not early,
            f'alloc leaves with {early} before it has searched the free blocks', f.node, ci.module)
 
@@ -512,6 +515,9 @@ MUTANTS = [
 REPAIRS = []
 
 EQUIV = [
+    dict(name='alloc validates its argument before it searches', file='sc3/synth/_engine.py',
+         old="    def alloc(self, n=1):\n        block = self._find_available(n)",
+         new="    def alloc(self, n=1):\n        if not isinstance(n, int) or n < 1:\n            raise ValueError('n must be a positive int')\n        block = self._find_available(n)"),
     dict(name='the two merges factored into a helper whose result is carried on', file='sc3/synth/_engine.py',
          edits=[('sc3/synth/_engine.py', '                tmp = prev.join(block)\n                if tmp is not None:\n                    # // if block is the last one, reduce the top\n                    if block.start == self.top: self.top = tmp.start\n                    self._array[tmp.start - self.addr_offset] = tmp\n                    self._array[block.start - self.addr_offset] = None\n                    self._remove_from_freed(prev)\n                    self._remove_from_freed(block)\n                    if self.top > tmp.start: self._add_to_freed(tmp)\n                    block = tmp\n', "                block = self._merge(prev, block)\n"),
                 ('sc3/synth/_engine.py', '                tmp = next.join(block)\n                if tmp is not None:\n                    # // if next is the last one, reduce the top\n                    if next.start == self.top: self.top = tmp.start\n                    self._array[tmp.start - self.addr_offset] = tmp\n                    self._array[next.start - self.addr_offset] = None\n                    self._remove_from_freed(next)\n                    self._remove_from_freed(block)\n                    if self.top > tmp.start: self._add_to_freed(tmp)\n', "                self._merge(block, next)\n"),
